@@ -623,12 +623,13 @@ func (rck *rockEngCheckpoint) Save(path string, notify chan struct{}) error {
 	rck.eng.RLock()
 	defer rck.eng.RUnlock()
 	if rck.eng.IsOpened() {
+		// the checkpoint copies the wal files at the end, so it can contain any write done
+		// before it returns. The caller can only be allowed to write again after that.
+		err := rck.ck.Save(path, math.MaxUint64)
 		if notify != nil {
-			time.AfterFunc(time.Millisecond*20, func() {
-				close(notify)
-			})
+			close(notify)
 		}
-		return rck.ck.Save(path, math.MaxUint64)
+		return err
 	}
 	return errDBEngClosed
 }
